@@ -330,7 +330,8 @@ def run(ctx):
             lines = cc.mutate(rng, lines, rng.choice([0, 0, 1, 1, 2]), 16)
         t = cc.record_edit_trace(rng, lines, aea=bool(i % 2), nops=rng.randint(1, 12))
         if t is None:
-            ctx.violation({"kind": "text", "lines": lines, "aea": bool(i % 2), "classes": []}, "lenient constructor raised")
+            ctx.violation({"kind": "text", "lines": lines, "aea": bool(i % 2), "classes": []},
+                          "lenient constructor raised %s" % cc.construct(cc.join(lines), aea=bool(i % 2)).exc)
             continue
         traces.append(t)
     lap("record_traces")
